@@ -31,53 +31,6 @@ def pos (cols : Nat) (c : Cell) : Nat := c.1 * cols + c.2
 /-- the value of the flat array `A` at cell `c` -/
 def at_ (cols : Nat) (A : List F) (c : Cell) : F := A.getD (pos cols c) Fl.nan
 
-/-- `l[k + i] := vals[i]` -/
-def putFrom (l : List F) : Nat → List F → List F
-  | _, [] => l
-  | k, v :: vs => putFrom (l.set k v) (k + 1) vs
-
-theorem putFrom_length (l : List F) (k : Nat) (vs : List F) : (putFrom l k vs).length = l.length := by
-  induction vs generalizing l k with
-  | nil => rfl
-  | cons v vs ih => simp [putFrom, ih]
-
-theorem putFrom_getD_lt (l : List F) (k : Nat) (vs : List F) (i : Nat) (h : i < k) (d : F) :
-    (putFrom l k vs).getD i d = l.getD i d := by
-  induction vs generalizing l k with
-  | nil => rfl
-  | cons v vs ih =>
-    simp only [putFrom]
-    rw [ih _ _ (by omega)]
-    simp only [List.getD_eq_getElem?_getD, List.getElem?_set]
-    have : k ≠ i := by omega
-    simp [this]
-
-theorem putFrom_getD_ge (l : List F) (k : Nat) (vs : List F) (i : Nat) (h : k + i < l.length)
-    (hi : i < vs.length) (d : F) : (putFrom l k vs).getD (k + i) d = vs.getD i d := by
-  induction vs generalizing l k i with
-  | nil => simp at hi
-  | cons v vs ih =>
-    simp only [putFrom]
-    cases i with
-    | zero =>
-      rw [putFrom_getD_lt _ _ _ _ (by omega)]
-      simp only [List.getD_eq_getElem?_getD, List.getElem?_set, Nat.add_zero] at h ⊢
-      simp [h]
-    | succ i =>
-      have := ih (l.set k v) (k + 1) i (by simp; omega) (by simpa using hi)
-      rw [show k + (i + 1) = k + 1 + i by omega, this]
-      simp
-
-/-- overwriting a whole list -/
-theorem putFrom_all (l vs : List F) (h : vs.length = l.length) : putFrom l 0 vs = vs := by
-  apply List.ext_getElem
-  · rw [putFrom_length, h]
-  · intro i h1 h2
-    have := putFrom_getD_ge l 0 vs i (by rw [putFrom_length] at h1; omega) h2 Fl.nan
-    simp only [Nat.zero_add, List.getD_eq_getElem?_getD] at this
-    rw [List.getElem?_eq_getElem h1, List.getElem?_eq_getElem h2] at this
-    simpa using this
-
 /-! ### the stores of one window -/
 
 /-- `dst[k0 + i] = src[cy dy_i, cx dx_i]` for all offsets of `w`, then `more` -/
